@@ -440,6 +440,26 @@ impl<'a> IrEmitter<'a> {
                     }
                 }
 
+                // Import paths can carry arbitrary text (`import python "..."`): anything that is not an identifier
+                // is reported, not handed to `format_ident!` (which panics).
+                let is_ident = |s: &str| {
+                    let mut chars = s.chars();
+                    chars.next().is_some_and(|c| c == '_' || c.is_alphabetic())
+                        && chars.all(|c| c == '_' || c.is_alphanumeric())
+                };
+                let names = path
+                    .iter()
+                    .map(|s| s.as_str())
+                    .chain(alias.iter().map(|s| s.as_str()))
+                    .chain(items.iter().flat_map(|i| std::iter::once(i.name.as_str()).chain(i.alias.as_deref())));
+                for name in names {
+                    if !is_ident(name) {
+                        return Err(EmitError::Unsupported(format!(
+                            "import of '{name}': not a valid identifier in the generated Rust"
+                        )));
+                    }
+                }
+
                 // Special-case stdlib shims:
                 // - `web` maps to `incan_stdlib::web`
                 // - `testing` maps to `incan_stdlib::testing`
